@@ -43,6 +43,7 @@ class Sched:
         self.fdpath = {}
         self.ended = {}
         self.fver = 1
+        self.flushy = True   # True: every write() reaches the file at once; False: data stays buffered until close() and is lost by a crash
         self.real = dict(io_open=io.open, b_open=builtins.open, os_open=os.open, stat=os.stat, replace=os.replace,
                          rename=os.rename, unlink=os.unlink, remove=os.remove)
 
@@ -269,20 +270,31 @@ class WFile:
     def __init__(self, f, s, path):
         self.f, self.s, self.path = f, s, path
         self.n = 0
+        self.buf = []
 
     def write(self, data):
         self.s.yield_point("write", self.path)
-        n = self.f.write(data)
-        self.f.flush()
-        self.s.touch(self.path)
+        if self.s.flushy:
+            n = self.f.write(data)
+            self.f.flush()
+            self.s.touch(self.path)
+        else:
+            self.buf.append(data)
+            n = len(data)
         self.n += 1
         self.s.log(self.s.me(), "write", self.s.fclass(self.path), ex=1, k=self.n)
         return n
+
+    def flush(self):
+        pass
 
     def close(self):
         if self.f.closed:
             return
         self.s.yield_point("close", self.path)
+        for data in self.buf:
+            self.f.write(data)
+        self.buf = []
         self.f.close()
         self.s.touch(self.path)
         self.s.log(self.s.me(), "close", self.s.fclass(self.path), ex=1)
